@@ -146,6 +146,35 @@ def main(tier):
             c["base_index"] = bi
             c["population"] = "faulted"
             cases.append(c)
+    if tier == "quick":
+        # systematic block: every (fault kind, phase) pair once, bases round-robin - a handler that
+        # swallows one exception type in one phase only must not depend on the random rotation above
+        labs = {bi: phase_labels(scn, r) for bi, (scn, r) in enumerate(zip(bs, brecs)) if r is not None and r["outcome"] == "completed"}
+        have = {(c["base_index"], c["faults"][0]["k"], c["faults"][0]["kind"]) for c in cases}
+        rng = stream(seed, "c10/cross")
+        j = 0
+        for ph in ("start", "noisetest", "design", "search", "poll", "final"):
+            cand = [bi for bi, lab in labs.items() if ph in lab]
+            if not cand:
+                continue
+            for kd in RAISES + VALS + FORMS + SDS:
+                ok = [bi for bi in cand if kd in kinds_for(bs[bi])]
+                if not ok:
+                    continue
+                bi = ok[j % len(ok)]
+                j += 1
+                pos = [i + 1 for i, p in enumerate(labs[bi]) if p == ph]
+                k = pos[rng.randrange(len(pos))]
+                if (bi, k, kd) in have:
+                    continue
+                have.add((bi, k, kd))
+                c = copy.deepcopy(bs[bi])
+                c["faults"] = [dict(seam="target", k=k, kind=kd)]
+                c["fault_phase"] = ph
+                c["base_phases"] = brecs[bi]["phases"]
+                c["base_index"] = bi
+                c["population"] = "faulted"
+                cases.append(c)
     recs = harness.run_batch(run.run_scenario, cases, timeout=300, report=rep)
     fired = collections.Counter()
     nt = set()
@@ -178,7 +207,7 @@ def main(tier):
     cov = dict(
         evaluations=len([r for r in recs if r is not None]) + len(bs),
         distinct_nontrivial=len(nt),
-        rule="(base run, call index k, fault kind) triples whose fault actually fired; bases in all noise modes; quick: >=1 k per phase, thorough: every k of every base",
+        rule="(base run, call index k, fault kind) triples whose fault actually fired; bases in all noise modes; quick: >=1 k per phase plus every (fault kind, phase) pair once, thorough: every k of every base",
         populations=dict(clean=len(bs), faulted=len(cases)),
         bases=dict(n=len(bs), completed=nbase_ok, call_positions=total_positions,
                    positions_faulted=len({(c['base_index'], c['faults'][0]['k']) for c in cases})),
